@@ -260,6 +260,13 @@ func (r *Run) apply(op HubOp) bool {
 		p := f.Proxies[[2]int{op.X, op.Y}]
 		p.SetRefuse(true)
 		go func() { time.Sleep(time.Duration(300+op.WaitMs) * time.Millisecond); p.SetRefuse(false) }()
+	case "freeze", "thaw":
+		// the links between x and y (both directions) become a black hole / work again
+		if op.X == op.Y {
+			return false
+		}
+		f.Proxies[[2]int{op.X, op.Y}].SetFrozen(op.K == "freeze")
+		f.Proxies[[2]int{op.Y, op.X}].SetFrozen(op.K == "freeze")
 	case "slow":
 		// the link x->y becomes slow: connections x opens to y take op.Ms longer to get through
 		if op.X == op.Y {
